@@ -5,9 +5,14 @@ package c11
 import (
 	"fmt"
 	"math/rand"
+	"os"
 	"strings"
 	"testing"
 	"time"
+
+	"servitor/verifchk/wk"
+	"servitor/verifkit/sim"
+	"servitor/verifkit/world"
 
 	"servitor/pub"
 	"servitor/splicer"
@@ -291,6 +296,108 @@ func TestVerifC11(t *testing.T) {
 			if j == i {
 				c.Sample(sp)
 			}
+		}
+	}
+	remoteFeeds(c, &caseNo)
+}
+
+/* Part 3: splicer.NewSplicer over simulator-served actors (the path the :feed command takes) */
+
+func vtime(v *world.V) time.Time {
+	if v == nil || v.N == nil {
+		return time.Time{}
+	}
+	t, err := time.Parse(time.RFC3339, v.N.Published)
+	if err != nil {
+		if v.Kind == "activity" && v.Target != nil {
+			return vtime(v.Target)
+		}
+		return time.Time{}
+	}
+	return t
+}
+
+func remoteFeeds(c *ev.Ctx, caseNo *int) {
+	s, err := sim.Start(os.Getenv("VERIF_TMP"))
+	if err != nil {
+		c.Inconclusive("simulator: " + err.Error())
+		return
+	}
+	defer s.Close()
+	total := c.Share(c.Pick(160, 3000))
+	for i := 0; i < total; i++ {
+		n := *caseNo
+		*caseNo++
+		if c.Past(n) || c.Stop() {
+			break
+		}
+		r := c.Rand(n, 0)
+		o := world.DefaultOpts(r)
+		o.MaxOutbox, o.MaxReplies, o.MaxAncestors = 12, 3, 1
+		g := world.Generate(r, []string{s.Host(2 + r.Intn(3)), s.Host(5 + r.Intn(3))}, o)
+		s.SetHandler(wk.Handler(g.World))
+		var inputs []string
+		var sources [][]*world.V
+		for k, m := 0, r.Intn(5); k < m; k++ {
+			switch r.Intn(8) {
+			case 0:
+				inputs = append(inputs, "https://"+g.Hosts[0]+"/nowhere")
+				sources = append(sources, nil)
+			case 1:
+				p := g.Posts[r.Intn(len(g.Posts))]
+				inputs = append(inputs, p.ID)
+				sources = append(sources, g.Children(g.ViewOf(p)))
+			default:
+				a := g.Actors[r.Intn(len(g.Actors))]
+				inputs = append(inputs, a.ID)
+				sources = append(sources, g.Children(g.ViewOf(a)))
+			}
+		}
+		if !c.Begin(n, fmt.Sprintf("remote feed of %d sources", len(inputs))) {
+			continue
+		}
+		// reference merge
+		heads := make([]int, len(sources))
+		var want []string
+		for {
+			best := -1
+			for k := range sources {
+				if heads[k] >= len(sources[k]) {
+					continue
+				}
+				if best < 0 || vtime(sources[k][heads[k]]).After(vtime(sources[best][heads[best]])) {
+					best = k
+				}
+			}
+			if best < 0 {
+				break
+			}
+			want = append(want, sources[best][heads[best]].Key())
+			heads[best]++
+		}
+		d := map[string]any{"inputs": inputs, "expected": want}
+		var got []pub.Tangible
+		complete := false
+		if c.Guard("feed:remote:", d, func() {
+			sp := splicer.NewSplicer(inputs)
+			got, complete = wk.HarvestAll(sp, []int{1 + r.Intn(6), 1 + r.Intn(6), 2, 6}, 500)
+		}) {
+			continue
+		}
+		keys := wk.Keys(got)
+		if !complete {
+			c.Violation("feed:remote:does-not-end", fmt.Sprintf("paging through a feed of %v did not end", inputs), d)
+			continue
+		}
+		if strings.Join(keys, "|") != strings.Join(want, "|") {
+			c.Violation("feed:remote:wrong-merge", fmt.Sprintf("feed of %v\nexpected %v\ngot      %v", inputs, want, keys), d)
+			continue
+		}
+		c.Count("remote_feeds", 1)
+		c.Count("remote_feed_items", int64(len(keys)))
+		c.Nontrivial(fmt.Sprintf("remote:%v", want))
+		if i%40 == 0 {
+			c.Sample(map[string]any{"remote_feed_inputs": inputs, "merged": want})
 		}
 	}
 }
